@@ -44,9 +44,31 @@ func opB64(args []Sx) Sx {
 	return L(B(e), L(Sym("some"), B(d)))
 }
 
+// window returns b as a prefix of a larger buffer (len(b) bytes visible, 64 more behind them) and a
+// function telling whether the hidden tail was written to
+func window(b []byte) ([]byte, func() bool) {
+	big := make([]byte, len(b)+64)
+	copy(big, b)
+	for i := len(b); i < len(big); i++ {
+		big[i] = 0xa5
+	}
+	return big[:len(b)], func() bool {
+		for i := len(b); i < len(big); i++ {
+			if big[i] != 0xa5 {
+				return true
+			}
+		}
+		return false
+	}
+}
+
 func opMiEnc(args []Sx) Sx {
 	var buf bytes.Buffer
-	dg, err := draftOf(args[0]).Encode(&buf, args[2].B, args[1].Int())
+	payload, clobbered := window(args[2].B) // the payload is a window of a larger buffer of the caller
+	dg, err := draftOf(args[0]).Encode(&buf, payload, args[1].Int())
+	if clobbered() || !bytes.Equal(payload, args[2].B) {
+		return L(Sym("wrote_into_callers_buffer"))
+	}
 	if err != nil {
 		return ErrV()
 	}
